@@ -10,7 +10,12 @@ Extracted (regenerated on every run):
     matched token by token and the pushed end-of-line bytes are extracted;
   * the screen-preparation byte strings (`@CLS@`, `^A'`, `^AL`, the Avatar pushes);
   * the Avatar run scanner bound (`pos.x + 3 < buf.get_width()`), the short-run limit (`repeat_count < 4`) and the three
-    quoted characters; the ATASCII escape set and inverse-video offset.
+    quoted characters; the ATASCII escape set and inverse-video offset;
+  * (merged tree) the shared cursor code the parsers' models mirror, matched token by token: the `UpperLeftCorner` arm of
+    TerminalState::limit_caret_pos (row clamped only `if buf.is_terminal_buffer`, column clamped to 0..=max(width-1,0)),
+    the Avatar parser's cursor arms 3/4/5/6 and its goto (1-based bytes, then limit_caret_pos; the `min(79, ..)` bound is
+    extracted), Caret::ff (shrinks the buffer only `if buf.is_terminal_buffer`), Caret::home / Buffer::upper_left_position /
+    get_first_visible_line (0 for a non-terminal buffer) and the Ctrl-A `'` arm that calls Caret::home.
 Anything that no longer matches raises TranslateError (stage G reports a broken tie).  The control flow of the writers
 and parsers is hand-modelled (Model/TextWriters.v, Model/TextParsers.v) and tied by stage C."""
 import os, sys, re
@@ -97,6 +102,16 @@ def load_size(src, what):
         raise TranslateError('%s: loader no longer clears is_terminal_buffer' % what)
     return parse_num(body[i+5]), parse_num(body[i+7])
 
+def pin(toks, text, what):
+    """the token sequence `text` (space separated) must occur exactly once in toks"""
+    if count_seq(toks, text.split()) != 1:
+        raise TranslateError('%s: `%s` not found exactly once' % (what, text))
+
+def pin_body(src, fn, text, what):
+    sig, body = src.find_fn(fn)
+    if norm_text(body) != text:
+        raise TranslateError('%s changed: %s' % (what, norm_text(body)[:300]))
+
 def nlist(v): return '[' + '; '.join(str(x) for x in v) + ']%N'
 
 def generate(repo):
@@ -178,6 +193,36 @@ def generate(repo):
     avp = f('src/parsers/avatar/mod.rs')
     for nm in ('AVT_CMD', 'AVT_CLR', 'AVT_REP'):
         D(nm, 'N', '%d%%N' % char_const(avp, nm))
+    sig, pb = avp.find_fn('print_char')
+    pin(pb, '3 => { caret . pos . y = max ( 0 , caret . pos . y - 1 ) ; buf . terminal_state . limit_caret_pos ( buf , caret ) ; }', 'avatar parser ^V^C')
+    pin(pb, '4 => { caret . pos . y += 1 ; buf . terminal_state . limit_caret_pos ( buf , caret ) ; }', 'avatar parser ^V^D')
+    pin(pb, '5 => { caret . pos . x = max ( 0 , caret . pos . x - 1 ) ; }', 'avatar parser ^V^E')
+    i = find_seq(pb, '6 => { caret . pos . x = min ('.split())
+    if i < 0 or pb[i+11][0] != 'num' or norm_text(pb[i+12:i+34]) != ', caret . pos . x + 1 ) ; buf . terminal_state . limit_caret_pos ( buf , caret ) ; }':
+        raise TranslateError('avatar parser ^V^F changed')
+    D('AVT_RIGHT_MAX', 'nat', str(parse_num(pb[i+11])))
+    pin(pb, 'caret . pos . x = max ( 0 , self . avt_repeat_char as i32 - 1 ) ; caret . pos . y = max ( 0 , ch as i32 - 1 ) ; '
+            'buf . terminal_state . limit_caret_pos ( buf , caret ) ; self . avt_state = AvtReadState :: Chars ;', 'avatar parser goto')
+    # --- the shared cursor code (terminal_state.rs, parsers/mod.rs, buffers.rs) as the loaders' NON-terminal buffer sees it
+    ts = f('src/terminal_state.rs')
+    sig, lb = ts.find_fn('limit_caret_pos')
+    pin(lb, 'match self . origin_mode { crate :: OriginMode :: UpperLeftCorner => { if buf . is_terminal_buffer { let first = '
+            'buf . get_first_visible_line ( ) ; caret . pos . y = caret . pos . y . clamp ( first , first + self . get_height ( ) - 1 ) ; } '
+            'caret . pos . x = caret . pos . x . clamp ( 0 , ( self . get_width ( ) - 1 ) . max ( 0 ) ) ; } '
+            'crate :: OriginMode :: WithinMargins => {', 'TerminalState::limit_caret_pos (UpperLeftCorner arm)')
+    pmod = f('src/parsers/mod.rs')
+    pin_body(pmod, 'ff', 'buf . reset_terminal ( ) ; buf . layers [ current_layer ] . clear ( ) ; buf . stop_sixel_threads ( ) ; '
+             'if buf . is_terminal_buffer { buf . set_size ( buf . terminal_state . get_size ( ) ) ; } self . pos = Position :: default ( ) ; '
+             'self . set_is_visible ( true ) ; self . reset_color_attribute ( ) ;', 'Caret::ff')
+    pin_body(pmod, 'home', 'self . pos = buf . upper_left_position ( ) ;', 'Caret::home')
+    bsrc = f('src/buffers.rs')
+    pin_body(bsrc, 'get_first_visible_line', 'if self . is_terminal_buffer { max ( 0 , self . size . height . saturating_sub ( '
+             'self . terminal_state . get_height ( ) ) ) } else { 0 }', 'Buffer::get_first_visible_line')
+    sig, ub = bsrc.find_fn('upper_left_position')
+    pin(ub, 'match self . terminal_state . origin_mode { crate :: OriginMode :: UpperLeftCorner => Position { x : 0 , '
+            'y : self . get_first_visible_line ( ) , } ,', 'Buffer::upper_left_position (UpperLeftCorner arm)')
+    sig, cb = cap.find_fn('print_char')
+    pin(cb, "'\\'' => caret . home ( buf ) ,", "ctrla parser ^A'")
     # --- ATASCII
     at = f('src/formats/atascii.rs')
     body, eol = line_break(at, 'atascii')
